@@ -85,7 +85,13 @@ def mk_leaf(kind):
         return Parameter(ft, c=0.75, time_dependent=True)
     if kind == "I":
         return 3
+    if kind in NEUTRAL:
+        return NEUTRAL[kind]
     return 1.25
+
+
+# numbers that are neutral for SOME operator in SOME position (p + 0, 1 * p, p ** 1, ...), and -1
+NEUTRAL = {"N0": 0, "N0f": 0.0, "N1": 1, "N1f": 1.0, "Nm1": -1}
 
 
 def leaf_value(kind, x, y, z, t):
@@ -97,6 +103,8 @@ def leaf_value(kind, x, y, z, t):
         return ft(x, y, z, t=t)
     if kind == "I":
         return 3
+    if kind in NEUTRAL:
+        return NEUTRAL[kind]
     return 1.25
 
 
@@ -119,7 +127,7 @@ def depth_of(t):
 
 
 def is_number(t):
-    return t in ("I", "F")
+    return t in ("I", "F") or t in NEUTRAL
 
 
 def has_td(t):
@@ -227,7 +235,7 @@ def check_tree(ctx, t, dev_solve=None, with_model_lines=None):
     if bool(p.time_dependent) != td:
         fail("td-flag", f"{show(t)}.time_dependent = {p.time_dependent}, expected {td}")
     # evaluation at array and scalar arguments, with and without z, with and without t
-    leaves = {k: mk_leaf(k) for k in LEAVES}
+    leaves = {k: mk_leaf(k) for k in LEAVES + list(NEUTRAL)}
     # the SAME object is evaluated again and again (no cache clearing in between): same (x, y) at another height z,
     # another time, other positions, and the first arguments once more
     argsets = [(X, Y, Z), (X, Y, None), (X, Y, Z2), (Y, X, Z2), (X, Y, Z)]
@@ -407,6 +415,19 @@ def run(ctx, stop_first=False, with_model=True):
             first = f
             if stop_first:
                 return first
+    # neutral numbers in both operand orders, under every operator, next to leaves and to composites (a node must not be
+    # "simplified away" unless the operator commutes: 0 - p is not p, 1 / p is not p)
+    bases = ["P2", "P3", "PT", (2, "P2", "P3"), (0, "PT", "P3")]
+    for base in bases:
+        for oi in range(len(OPS)):
+            for nk in NEUTRAL:
+                for t in ((oi, nk, base), (oi, base, nk), (1, (oi, nk, base), "P3")):
+                    f = check_tree(ctx, t)
+                    ctx.count("neutral_number_trees")
+                    if f and first is None:
+                        first = f
+                        if stop_first:
+                            return first
     f = solver_use(ctx)
     first = first or f
     if with_model and os.environ.get('C16_NOMODEL') != '1':
